@@ -36,12 +36,18 @@ Proof.
     rewrite N.mod_mul_r by (try apply N.pow_nonzero; lia). lia.
 Qed.
 
-Lemma read_number_padk k n :
-  (1 <= k <= 9)%nat -> n < 10 ^ N.of_nat k -> read_number (padk k n) = Ok n.
+Lemma read_digits_padk k n :
+  (1 <= k <= 9)%nat -> n < 10 ^ N.of_nat k -> read_digits (padk k n) = Ok n.
 Proof.
-  intros Hk Hn. unfold read_number. rewrite padk_length, padk_digits, digits_val_padk.
+  intros Hk Hn. unfold read_digits. rewrite padk_length, padk_digits, digits_val_padk.
   rewrite N.mod_small by exact Hn.
   destruct ((k =? 0)%nat || (9 <? k)%nat) eqn:E; [lia|reflexivity].
+Qed.
+Lemma read_number_padk max k n :
+  (1 <= k <= 9)%nat -> n < 10 ^ N.of_nat k -> n <= max -> read_number max (padk k n) = Ok n.
+Proof.
+  intros Hk Hn Hm. unfold read_number. rewrite read_digits_padk by assumption. cbn [bind].
+  assert (max <? n = false) as -> by lia. reflexivity.
 Qed.
 
 Lemma firstn_padk k n r : firstn k (padk k n ++ r) = padk k n.
@@ -58,10 +64,10 @@ Proof. intros. unfold short. rewrite app_length, padk_length. lia. Qed.
 (* a rest that cannot be mistaken for the next two-digit field *)
 Definition nd_head (r : bytes) : bool := match r with [] => true | c :: _ => negb (is_digit c) end.
 
-Lemma read_number_nd r : nd_head r = true -> short 2 r = false -> exists e, read_number (firstn 2 r) = Err e.
+Lemma read_number_nd max r : nd_head r = true -> short 2 r = false -> exists e, read_number max (firstn 2 r) = Err e.
 Proof.
   destruct r as [|a [|b r]]; cbn; intros H1 H2; try discriminate.
-  unfold read_number. cbn. apply negb_true_iff in H1. rewrite H1. cbn. eauto.
+  unfold read_number, read_digits. cbn. apply negb_true_iff in H1. rewrite H1. cbn. eauto.
 Qed.
 
 Lemma guard_true e : guard true e = Ok tt. Proof. reflexivity. Qed.
@@ -89,14 +95,14 @@ Proof.
   - destruct Hr as [Hr|Hr]; [discriminate|].
     destruct (short 2 rest) eqn:Es.
     + rewrite from_y_ok by (apply Hv). reflexivity.
-    + destruct (read_number_nd rest Hr Es) as [e ->]. rewrite from_y_ok by (apply Hv). reflexivity.
+    + destruct (read_number_nd 255 rest Hr Es) as [e ->]. rewrite from_y_ok by (apply Hv). reflexivity.
   - apply andb_true_iff in Hv as [Hy Hm].
     rewrite short_padk by lia. rewrite firstn_padk, skipn_padk.
     rewrite read_number_padk by (try lia; inr; cbn; lia).
     destruct Hr as [Hr|Hr]; [discriminate|].
     destruct (short 2 rest) eqn:Es.
     + rewrite from_ym_ok by assumption. reflexivity.
-    + destruct (read_number_nd rest Hr Es) as [e ->]. rewrite from_ym_ok by assumption. reflexivity.
+    + destruct (read_number_nd 255 rest Hr Es) as [e ->]. rewrite from_ym_ok by assumption. reflexivity.
   - apply andb_true_iff in Hv as [Hv Hd]. apply andb_true_iff in Hv as [Hy Hm].
     rewrite short_padk by lia. rewrite firstn_padk, skipn_padk.
     rewrite read_number_padk by (try lia; inr; cbn; lia).
